@@ -221,6 +221,7 @@ func checkC07(c *Ctx) {
 	// a stream the server ends makes the reader close every pending channel: a call that also closes its own panics
 	c08SingleCloser(c, fns)
 	c07HeaderValuesValidated(c, fns)
+	c07ReaderSurvives(c, fns)
 	c01FreshBuffer(c) // an error answer handed to the waiting call is not overwritten by whatever the peer sends next
 	c07CloseAfterExit(c)
 	c07BoundedDrain(c, "R-bounded-drain")
